@@ -160,6 +160,9 @@ func (e *Env) writeAV(b *strings.Builder, a AV, d int) {
 		if a.Fn != nil {
 			b.WriteString(a.Fn.Name())
 		}
+		for _, f := range a.Fns {
+			b.WriteString("|" + f.Name())
+		}
 		if a.In != nil {
 			b.WriteString("<")
 			e.writeAV(b, *a.In, d+1)
@@ -326,6 +329,38 @@ func (j *joiner) joinAV(x, y AV, tag string) AV {
 			out.Bind = x.Bind
 			if x.Fn == nil && len(x.Fns) > 0 && sameFns(x.Fns, y.Fns) {
 				out.Fns = x.Fns
+			}
+		}
+		if x.K == KFunc && y.K == KFunc && out.Fn == nil && len(out.Fns) == 0 {
+			// different targets that share their bindings (method values of one receiver collected in a
+			// table, or plain functions): the value is one of them
+			alts := func(v AV) []*ssa.Function {
+				if v.Fn != nil {
+					return []*ssa.Function{v.Fn}
+				}
+				return v.Fns
+			}
+			fa, fb := alts(x), alts(y)
+			same := len(fa) > 0 && len(fb) > 0 && len(x.Bind) == len(y.Bind)
+			if same {
+				for i := range x.Bind {
+					if j.a.avKey(bare(x.Bind[i])) != j.b.avKey(bare(y.Bind[i])) {
+						same = false
+					}
+				}
+			}
+			if same {
+				seen := map[*ssa.Function]bool{}
+				var all []*ssa.Function
+				for _, f := range append(append([]*ssa.Function{}, fa...), fb...) {
+					if !seen[f] {
+						seen[f] = true
+						all = append(all, f)
+					}
+				}
+				sort.Slice(all, func(i, k int) bool { return all[i].String() < all[k].String() })
+				out.Fns = all
+				out.Bind = x.Bind
 			}
 		}
 		// symbol: same symbol on both sides keeps it (facts joined below); else a join symbol
